@@ -33,6 +33,12 @@ use trust_runtime::debug::{
 #[path = "c17/rt.rs"]
 mod rt;
 
+/// Number of operations that hit the watchdog in this process.  A hang is a violation of the
+/// property; after a few of them the remaining cases are skipped (each costs a full watchdog
+/// period and adds nothing).
+pub(crate) static HANGS: AtomicUsize = AtomicUsize::new(0);
+const MAX_HANGS: usize = 3;
+
 pub(crate) fn opt(v: Option<u32>) -> String {
     v.map(|x| x.to_string()).unwrap_or_else(|| "-".into())
 }
@@ -741,6 +747,7 @@ fn run_mon_case(n: u64, rng: &mut Rng, nops: usize, watchdog: Duration, out: &mu
             Err(Hang) => {
                 out.line("impl hang");
                 out.count("hang");
+                HANGS.fetch_add(1, Ordering::SeqCst);
                 hung = true;
                 break;
             }
@@ -753,6 +760,7 @@ fn run_mon_case(n: u64, rng: &mut Rng, nops: usize, watchdog: Duration, out: &mu
             Err(Hang) => {
                 out.line("impl hang");
                 out.count("hang");
+                HANGS.fetch_add(1, Ordering::SeqCst);
                 hung = true;
             }
         }
@@ -831,6 +839,11 @@ pub fn run(args: &Args) -> i32 {
                 let n = numbers[i];
                 let mut rng = Rng::for_case(args.seed, n);
                 let mut out = Out::new();
+                if HANGS.load(Ordering::SeqCst) >= MAX_HANGS {
+                    out.count("cases_skipped_after_hangs");
+                    results.lock().expect("results")[i] = Some(Ok(out));
+                    continue;
+                }
                 let res = if n < args.cases {
                     run_mon_case(n, &mut rng, nops, watchdog, &mut out);
                     out.count("cases_mon");
